@@ -24,7 +24,7 @@ from hsim.worlds.http import FlowRecord, HttpWorld
 
 PROPERTY = "C17"
 CHUNK = {"quick": 10, "thorough": 24}
-PROBES = ["announcement_names_a_torn_down_region", "reentrant_injection_in_same_response", "replay_served", "replay_served_twice_in_a_row", "swallow_all_gives_undef", "injection_across_non_200",
+PROBES = ["two_sessions_in_the_same_simulators", "announcement_names_a_torn_down_region", "reentrant_injection_in_same_response", "replay_served", "replay_served_twice_in_a_row", "swallow_all_gives_undef", "injection_across_non_200",
           "injection_while_replay_served", "teardown_with_pending_injection", "hook_raised", "region_announced",
           "region_announced_twice", "announcement_swallowed", "inject_message_templated", "empty_events_with_injection",
           "lost_undef_response", "two_regions_polling", "origin_undef"]
@@ -50,7 +50,9 @@ ANNOUNCERS = ["EstablishAgentCommunication", "EnableSimulator", "TeleportFinish"
 def gen_plan(rng: random.Random, tier: str) -> dict:
     big = tier == "thorough"
     n_regions = rng.randint(1, 2)
-    cfg = {"n_sessions": 1, "n_regions": [n_regions], "queue_latency": rng.choice([0.0, 0.003, 0.02]),
+    # a second avatar logged in through the same proxy, standing in the same simulators and polling its own queues
+    second = rng.random() < 0.3
+    cfg = {"n_sessions": 1, "n_regions": [n_regions], "second_session": second, "queue_latency": rng.choice([0.0, 0.003, 0.02]),
            "latency_seed": rng.randrange(1 << 30), "tail": 0.6}
     p_lost = rng.choice([0.0, 0.15, 0.35])
     p_bad = rng.choice([0.0, 0.15, 0.3])
@@ -63,7 +65,7 @@ def gen_plan(rng: random.Random, tier: str) -> dict:
     ev_no = 0
     for _ in range(n):
         t = round(t + rng.choice([0.003, 0.01, 0.03, 0.08]), 4)
-        r = rng.randrange(n_regions)
+        r = rng.randrange(n_regions * (2 if second else 1))
         x = rng.random()
         if x < p_inject:
             ev_no += 1
@@ -88,7 +90,7 @@ def gen_plan(rng: random.Random, tier: str) -> dict:
                     elif z < 0.4:
                         kind = "templated"
                     events.append({"n": ev_no, "kind": kind, "addr": rng.randrange(4) if rng.random() < 0.75
-                                   else 4 + rng.randrange(n_regions),    # >= 4: a region the viewer already polls
+                                   else 4 + rng.randrange(n_regions),    # >= 4: a region this viewer already polls
                                    "swallow": rng.random() < p_swallow, "raise": rng.random() < 0.1})
                     if events[-1]["addr"] >= 4 and rng.random() < 0.5:
                         events[-1]["new_seed"] = True
@@ -226,38 +228,51 @@ def run_plan(plan: dict) -> RunResult:
                 pass
 
         world = HttpWorld(env, cfg, addons=[EQAddon()])
-        specs = region_specs(0, cfg["n_regions"][0])
-        session = world.login(0, specs)
+        two = bool(cfg.get("second_session"))
+        specs_by_s = [region_specs(0, cfg["n_regions"][0], two)]
+        sessions_ = [world.login(0, specs_by_s[0])]
+        if two:
+            specs_by_s.append(region_specs(1, cfg["n_regions"][0], True))       # same simulators, own seeds
+            sessions_.append(world.login(1, specs_by_s[1]))
+            res.probe("two_sessions_in_the_same_simulators")
+        session = sessions_[0]
         transports = []
         eq_urls = []
-        for r, region in enumerate(session.regions):
-            url = f"https://sim0-{r}.example.invalid:12043/cap/eq-{r}"
-            eq_urls.append(url)
-            region.update_caps({"EventQueueGet": url})
-            tr = _Transport()
-            transports.append(tr)
-            region.circuit = ProxiedCircuit(("10.1.0.2", 40000), region.circuit_addr, tr)
+        sess_of = []          # global region index -> session index
+        region_objs = []
+        for s_, sess_ in enumerate(sessions_):
+            for r, region in enumerate(sess_.regions):
+                url = f"https://sim{s_}-{r}.example.invalid:12043/cap/eq-{s_}-{r}"
+                eq_urls.append(url)
+                region.update_caps({"EventQueueGet": url})
+                tr = _Transport()
+                transports.append(tr)
+                region.circuit = ProxiedCircuit((f"10.1.0.{2 + s_}", 40000 + s_), region.circuit_addr, tr)
+                sess_of.append(s_)
+                region_objs.append(region)
+        specs = specs_by_s[0]
+        nreg_total = len(region_objs)
         if cfg["queue_latency"]:
             res.fault("queue_latency")
         if cfg["n_regions"][0] > 1:
             res.probe("two_regions_polling")
         world.start()
-        region_objs = list(session.regions)
 
         # ---- building events ----------------------------------------------------------------------
-        def ann_of(e: dict):
-            """(address, handle, seed url, EnableSimulator port) an announcing event names."""
+        def ann_of(e: dict, r_: int = 0):
+            """(address, handle, seed url, EnableSimulator port) an announcing event on region r_'s queue names."""
             if e["addr"] >= 4:
-                sp = specs[(e["addr"] - 4) % len(specs)]
+                sp_list = specs_by_s[sess_of[r_]]
+                sp = sp_list[(e["addr"] - 4) % len(sp_list)]
                 # (a region that is promoted from neighbour to main is announced with a fresh seed capability)
                 seed = sp["seed"] + (f"-renewed{e['n']}" if e.get("new_seed") else "")
                 return tuple(sp["addr"]), sp["handle"], seed, sp["addr"][1]
             a = ann_addr(e["addr"])
             return a, (7000 + e["addr"]) << 32, f"https://ann{e['addr']}.example.invalid/cap/seed", 20000 + e["n"]
 
-        def build_event(e: dict) -> dict:
+        def build_event(e: dict, r_: int = 0) -> dict:
             n, kind = e["n"], e["kind"]
-            addr, handle_, seed_, en_port = ann_of(e)
+            addr, handle_, seed_, en_port = ann_of(e, r_)
             if kind == "plain":
                 return {"message": "HsimPlainEvent", "body": {"n": n, "text": f"e{n}"}}
             if kind == "EstablishAgentCommunication":
@@ -286,7 +301,7 @@ def run_plan(plan: dict) -> RunResult:
             return lser.serialize(m, True)
 
         # ---- origin: numbered stream per region, fresh ids, never re-sends -------------------------------
-        origin_state = [{"next_id": 100 * (r + 1), "polls": 0} for r in range(cfg["n_regions"][0])]
+        origin_state = [{"next_id": 100 * (r + 1), "polls": 0} for r in range(nreg_total)]
 
         def origin(rec: FlowRecord, request):
             st = rec.spec["st"]
@@ -301,14 +316,14 @@ def run_plan(plan: dict) -> RunResult:
                 rec.spec["origin_body"] = None
                 return mitmproxy.http.Response.make(200, llsd.format_xml(None), {"Content-Type": "application/llsd+xml"})
             os_["next_id"] += 1
-            body = {"id": os_["next_id"], "events": [build_event(e) for e in st["events"]]}
+            body = {"id": os_["next_id"], "events": [build_event(e, r) for e in st["events"]]}
             rec.spec["origin_body"] = body
             return mitmproxy.http.Response.make(200, llsd.format_xml(body), {"Content-Type": "application/llsd+xml"})
         world.origin = origin
 
         # ---- viewer poller: one outstanding poll per region, ack = last id actually received ---------------
         viewer = [{"ack": None, "busy": False, "received": [], "last_lost": None, "polls": []}
-                  for _ in range(cfg["n_regions"][0])]
+                  for _ in range(nreg_total)]
 
         def op_poll(i, st):
             r = st["r"]
@@ -382,12 +397,12 @@ def run_plan(plan: dict) -> RunResult:
 
         # ---- reference model replayed over the main process's own order of work ----------------------------
         by_id = {rec.id: rec for rec in world.flows if rec.id}
-        nreg = cfg["n_regions"][0]
+        nreg = nreg_total
         pending: List[List[dict]] = [[] for _ in range(nreg)]       # injected, not yet delivered
         cache: List[dict] = [{"ack": None, "payload": None} for _ in range(nreg)]
         expected_body: Dict[str, object] = {}
         expected_replay: Dict[str, bool] = {}
-        announced: List[tuple] = []
+        announced_by_s: List[List[tuple]] = [[] for _ in sessions_]
         had_non200_with_pending = [False] * nreg
         torn = set()
         for entry in world.main_log:
@@ -434,12 +449,14 @@ def run_plan(plan: dict) -> RunResult:
                             if swallowed:
                                 res.probe("announcement_swallowed")
                             else:
-                                a, _h, _s, en_port_ = ann_of(e_spec)
+                                a, _h, _s, en_port_ = ann_of(e_spec, r)
+                                announced = announced_by_s[sess_of[r]]
                                 if e_spec["kind"] == "EnableSimulator":
                                     a = (a[0], en_port_)
                                 if e_spec["addr"] >= 4:
                                     res.probe("announcement_names_a_region_already_polled")
-                                    if (e_spec["addr"] - 4) % len(specs) in torn:
+                                    n_own = len(specs_by_s[sess_of[r]])
+                                    if sess_of[r] * cfg["n_regions"][0] + (e_spec["addr"] - 4) % n_own in torn:
                                         res.probe("announcement_names_a_torn_down_region")
                                 if a in announced:
                                     res.probe("region_announced_twice")
@@ -558,14 +575,16 @@ def run_plan(plan: dict) -> RunResult:
                     violate("C17/viewer/duplicate-event", region=r, events=dup)
                     break
         # ---- regions announced over the event queue: exactly one entry per address -----------------------
-        if not stopped:
-            addrs = [reg.circuit_addr for reg in session.regions]
+        for s_, sess_ in enumerate(sessions_):
+            if stopped:
+                break
+            addrs = [reg.circuit_addr for reg in sess_.regions]
             if len(addrs) != len(set(addrs)):
-                violate("C17/regions/duplicate-entry", addrs=[list(a) for a in addrs])
+                violate("C17/regions/duplicate-entry", session=s_, addrs=[list(a) for a in addrs])
             else:
-                want = {tuple(sp["addr"]) for sp in specs} | set(announced)
+                want = {tuple(sp["addr"]) for sp in specs_by_s[s_]} | set(announced_by_s[s_])
                 if set(addrs) != want:
-                    violate("C17/regions/set", got=sorted(addrs), want=sorted(want))
+                    violate("C17/regions/set", session=s_, got=sorted(addrs), want=sorted(want))
         if not stopped:
             for ctx in loop.loop_exceptions:
                 exc = ctx.get("exception")
